@@ -1001,4 +1001,298 @@ theorem run_mono (fuel : Nat) : ∀ (ops : List Op) (s : State),
     · exact h1.2 ev e i hi
     · exact h2.2 ev e i (h1.stateOr i hi)
 
+/-! ### signers / threshold / lock change only through a self-call -/
+
+def Call.isAdmin : Call → Bool
+  | .addSigner .. | .removeSigner .. | .swapSigner .. | .changeThreshold .. | .lockBalance .. => true
+  | _ => false
+
+/-- an inner send the wallet addresses to itself with one of the five administrative methods -/
+def SelfAdmin (ev : Event) : Prop := ev.to = ev.pre.self ∧ 5 ≤ ev.method ∧ ev.method ≤ 9
+
+theorem decode_admin {m : Nat} {p : List Int} (h : (decode m p).isAdmin = true) : 5 ≤ m ∧ m ≤ 9 := by
+  by_cases hm : 5 ≤ m ∧ m ≤ 9
+  · exact hm
+  · exfalso
+    unfold decode at h
+    have h5 : m ≠ 5 := by omega
+    have h6 : m ≠ 6 := by omega
+    have h7 : m ≠ 7 := by omega
+    have h8 : m ≠ 8 := by omega
+    have h9 : m ≠ 9 := by omega
+    simp only [h5, h6, h7, h8, h9, if_false] at h
+    repeat' split at h
+    all_goals simp [Call.isAdmin] at h
+
+/-- relative to the start state: the wallet id is kept, and the configuration is kept unless a
+    self-addressed administrative send was issued inside -/
+def ResCfg (s : State) (r : Res) : Prop :=
+  ∀ s' ret, r.out = .ok (s', ret) → Cfg s' = Cfg s ∨ ∃ ev ∈ r.trace, SelfAdmin ev
+
+def ResSelf (s : State) (r : Res) : Prop := ∀ s' ret, r.out = .ok (s', ret) → s'.self = s.self
+
+def SubCfg (sub : Sub) : Prop :=
+  ∀ s a, ResSelf s (sub s a) ∧
+    ((a.msg.caller ≠ s.self ∨ a.msg.call.isAdmin = false) → ResCfg s (sub s a))
+
+theorem runChildren_cfg {sub : Sub} (h : SubCfg sub) (self : Nat) :
+    ∀ (cs : List Act) (s : State), s.self = self →
+      (runChildren sub self s cs).1.self = self ∧
+      (Cfg (runChildren sub self s cs).1 = Cfg s ∨ ∃ ev ∈ (runChildren sub self s cs).2, SelfAdmin ev)
+  | [], s, hs => by simp [runChildren, hs]
+  | a :: rest, s, hs => by
+    simp only [runChildren]
+    by_cases hc : a.msg.caller = self
+    · simp only [hc, if_true]; exact runChildren_cfg h self rest s hs
+    · simp only [hc, if_false]
+      have hr := h s a
+      have hself : ((sub s a).stateOr s).self = self := by
+        unfold Res.stateOr
+        cases ho : (sub s a).out with
+        | error e => exact hs
+        | ok p => obtain ⟨s', ret⟩ := p; simp only []; rw [hr.1 s' ret ho]; exact hs
+      have hcfg : Cfg ((sub s a).stateOr s) = Cfg s ∨ ∃ ev ∈ (sub s a).trace, SelfAdmin ev := by
+        unfold Res.stateOr
+        cases ho : (sub s a).out with
+        | error e => exact Or.inl rfl
+        | ok p =>
+          obtain ⟨s', ret⟩ := p
+          exact hr.2 (Or.inl (by rw [hs]; exact hc)) s' ret ho
+      have ih := runChildren_cfg h self rest _ hself
+      refine ⟨ih.1, ?_⟩
+      rcases hcfg with e1 | ⟨ev, hm, hv⟩
+      · rcases ih.2 with e2 | ⟨ev, hm, hv⟩
+        · exact Or.inl (e2.trans e1)
+        · exact Or.inr ⟨ev, List.mem_append_right _ hm, hv⟩
+      · exact Or.inr ⟨ev, List.mem_append_left _ hm, hv⟩
+
+theorem ResCfg.err (s : State) (e : Err) (t : List Event) : ResCfg s ⟨.error e, t⟩ :=
+  fun _ _ h => by simp at h
+theorem ResSelf.err (s : State) (e : Err) (t : List Event) : ResSelf s ⟨.error e, t⟩ :=
+  fun _ _ h => by simp at h
+
+theorem execIfApproved_cfg {sub : Sub} (h : SubCfg sub) (epoch : Int) (s : State) (id : Nat)
+    (txn : Tx) (sendOk : Bool) (children : List Act) :
+    ResSelf s (execIfApproved sub epoch s id txn sendOk children) ∧
+    ResCfg s (execIfApproved sub epoch s id txn sendOk children) := by
+  unfold execIfApproved
+  by_cases ht : s.threshold ≤ txn.approved.length
+  · simp only [ht, if_true]
+    cases hc : checkAvailable s txn.value epoch with
+    | error e => exact ⟨ResSelf.err s e _, ResCfg.err s e _⟩
+    | ok u =>
+      simp only []
+      by_cases hto : txn.to = s.self
+      · simp only [hto, if_true]
+        generalize hr' : sub _ _ = r
+        obtain ⟨s2, a2, hr2, hself2, hcfg2, hcall2⟩ : ∃ s2 a2, r = sub s2 a2 ∧ s2.self = s.self ∧
+            Cfg s2 = Cfg s ∧ a2.msg.call = decode txn.method txn.params :=
+          ⟨_, _, hr'.symm, rfl, rfl, rfl⟩
+        have hr := h s2 a2
+        rw [← hr2] at hr
+        refine ⟨?_, ?_⟩
+        · intro s' r' he
+          injection he with he; injection he with he1 he2; subst he1
+          cases hout : r.out with
+          | error e => rfl
+          | ok p =>
+            obtain ⟨s3, ret⟩ := p
+            cases sendOk
+            · rfl
+            · exact (hr.1 _ _ hout).trans hself2
+        · intro s' r' he
+          injection he with he; injection he with he1 he2; subst he1
+          by_cases hadm : 5 ≤ txn.method ∧ txn.method ≤ 9
+          · exact Or.inr ⟨_, List.mem_cons_self, ⟨rfl, hadm.1, hadm.2⟩⟩
+          · have hna : a2.msg.call.isAdmin = false := by
+              rw [hcall2]
+              cases hb : (decode txn.method txn.params).isAdmin with
+              | false => rfl
+              | true => exact absurd (decode_admin hb) hadm
+            have hrc := hr.2 (Or.inr hna)
+            cases hout : r.out with
+            | error e => exact Or.inl rfl
+            | ok p =>
+              obtain ⟨s3, ret⟩ := p
+              cases sendOk
+              · exact Or.inl rfl
+              · rcases hrc _ _ hout with e | ⟨ev, hm, hv⟩
+                · exact Or.inl (e.trans hcfg2)
+                · exact Or.inr ⟨ev, List.mem_cons_of_mem _ hm, hv⟩
+      · simp only [hto, if_false]
+        generalize hn' : runChildren sub s.self _ children = n
+        obtain ⟨s2, hn2, hself2, hcfg2⟩ : ∃ s2, n = runChildren sub s.self s2 children ∧
+            s2.self = s.self ∧ Cfg s2 = Cfg s := ⟨_, hn'.symm, rfl, rfl⟩
+        have hrc := runChildren_cfg h s.self children s2 hself2
+        rw [← hn2] at hrc
+        refine ⟨?_, ?_⟩
+        · intro s' r' he
+          injection he with he; injection he with he1 he2; subst he1
+          cases sendOk
+          · rfl
+          · exact hrc.1
+        · intro s' r' he
+          injection he with he; injection he with he1 he2; subst he1
+          cases sendOk
+          · exact Or.inl rfl
+          · rcases hrc.2 with e | ⟨ev, hm, hv⟩
+            · exact Or.inl (e.trans hcfg2)
+            · exact Or.inr ⟨ev, List.mem_cons_of_mem _ hm, hv⟩
+  · simp only [ht, if_false]
+    refine ⟨?_, ?_⟩
+    · intro s' r' he
+      injection he with he; injection he with he1 he2; subst he1; rfl
+    · intro s' r' he
+      injection he with he; injection he with he1 he2; subst he1; exact Or.inl rfl
+
+theorem ResCfg.from {s0 s : State} {r : Res} (h : ResCfg s r) (h0 : Cfg s = Cfg s0) : ResCfg s0 r :=
+  fun s' ret ho => by
+    rcases h s' ret ho with e | e
+    · exact Or.inl (e.trans h0)
+    · exact Or.inr e
+
+theorem ResSelf.from {s0 s : State} {r : Res} (h : ResSelf s r) (h0 : s.self = s0.self) :
+    ResSelf s0 r := fun s' ret ho => (h s' ret ho).trans h0
+
+theorem approveTransaction_cfg {sub : Sub} (h : SubCfg sub) (epoch : Int) (s : State)
+    (caller id : Nat) (txn : Tx) (sendOk : Bool) (children : List Act) :
+    ResSelf s (approveTransaction sub epoch s caller id txn sendOk children) ∧
+    ResCfg s (approveTransaction sub epoch s caller id txn sendOk children) := by
+  unfold approveTransaction
+  by_cases hc : caller ∈ txn.approved
+  · simp only [hc, if_true]; exact ⟨ResSelf.err s _ _, ResCfg.err s _ _⟩
+  · simp only [hc, if_false]
+    exact ⟨(execIfApproved_cfg h epoch _ id _ sendOk children).1.from rfl,
+      (execIfApproved_cfg h epoch _ id _ sendOk children).2.from rfl⟩
+
+theorem propose_cfg {sub : Sub} (h : SubCfg sub) (epoch : Int) (s : State) (caller to : Nat)
+    (value : Int) (method : Nat) (params : List Int) (sendOk : Bool) (children : List Act) :
+    ResSelf s (propose sub epoch s caller to value method params sendOk children) ∧
+    ResCfg s (propose sub epoch s caller to value method params sendOk children) := by
+  unfold propose
+  by_cases hv : value < 0
+  · simp only [hv, if_true]; exact ⟨ResSelf.err s _ _, ResCfg.err s _ _⟩
+  · simp only [hv, if_false]
+    by_cases hc : caller ∉ s.signers
+    · simp only [hc, if_true]; exact ⟨ResSelf.err s _ _, ResCfg.err s _ _⟩
+    · simp only [hc, if_false]
+      exact ⟨(approveTransaction_cfg h epoch _ _ _ _ _ _).1.from rfl,
+        (approveTransaction_cfg h epoch _ _ _ _ _ _).2.from rfl⟩
+
+theorem approve_cfg {sub : Sub} (h : SubCfg sub) (epoch : Int) (s : State) (caller id : Nat)
+    (hashOk sendOk : Bool) (children : List Act) :
+    ResSelf s (approve sub epoch s caller id hashOk sendOk children) ∧
+    ResCfg s (approve sub epoch s caller id hashOk sendOk children) := by
+  unfold approve
+  by_cases hc : caller ∉ s.signers
+  · simp only [hc, if_true]; exact ⟨ResSelf.err s _ _, ResCfg.err s _ _⟩
+  · simp only [hc, if_false]
+    cases hl : alookup id s.pending with
+    | none => exact ⟨ResSelf.err s _ _, ResCfg.err s _ _⟩
+    | some txn =>
+      simp only []
+      cases hashOk
+      · exact ⟨ResSelf.err s _ _, ResCfg.err s _ _⟩
+      · simp only [Bool.not_true, Bool.false_eq_true, if_false]
+        have hr := execIfApproved_cfg h epoch s id txn sendOk children
+        generalize execIfApproved sub epoch s id txn sendOk children = r at hr
+        cases ho : r.out with
+        | error e => exact ⟨ResSelf.err s _ _, ResCfg.err s _ _⟩
+        | ok p =>
+          obtain ⟨s1, ret⟩ := p
+          simp only []
+          by_cases ha : ret.applied
+          · simp only [ha, if_true]; exact hr
+          · simp only [ha, if_false]
+            exact approveTransaction_cfg h epoch s caller id txn sendOk children
+
+theorem pureRes_self {s : State} {r : Except Err State} (h : ∀ s', r = .ok s' → s'.self = s.self) :
+    ResSelf s (pureRes r) := by
+  unfold pureRes
+  cases r with
+  | error e => exact ResSelf.err s e _
+  | ok s1 =>
+    intro s' ret he
+    injection he with he; injection he with he1 _; subst he1
+    exact h s1 rfl
+
+theorem pureRes_cfg {s : State} {r : Except Err State} (h : ∀ s', r = .ok s' → Cfg s' = Cfg s) :
+    ResCfg s (pureRes r) := by
+  unfold pureRes
+  cases r with
+  | error e => exact ResCfg.err s e _
+  | ok s1 =>
+    intro s' ret he
+    injection he with he; injection he with he1 _; subst he1
+    exact Or.inl (h s1 rfl)
+
+theorem execMsg_cfg {sub : Sub} (h : SubCfg sub) (epoch : Int) : SubCfg (execMsg sub epoch) := by
+  intro s a
+  unfold execMsg
+  by_cases hv : a.msg.value < 0
+  · simp only [hv, if_true]; exact ⟨ResSelf.err s _ _, fun _ => ResCfg.err s _ _⟩
+  · simp only [hv, if_false]
+    cases hcall : a.msg.call with
+    | receive =>
+      refine ⟨?_, fun _ => ?_⟩
+      · intro s' ret he
+        injection he with he; injection he with he1 _; subst he1; rfl
+      · intro s' ret he
+        injection he with he; injection he with he1 _; subst he1; exact Or.inl rfl
+    | bad => exact ⟨ResSelf.err s _ _, fun _ => ResCfg.err s _ _⟩
+    | propose to value method params =>
+      exact ⟨(propose_cfg h epoch _ _ _ _ _ _ _ _).1.from rfl,
+        fun _ => (propose_cfg h epoch _ _ _ _ _ _ _ _).2.from rfl⟩
+    | approve id hashOk =>
+      exact ⟨(approve_cfg h epoch _ _ _ _ _ _).1.from rfl,
+        fun _ => (approve_cfg h epoch _ _ _ _ _ _).2.from rfl⟩
+    | cancel id hashOk =>
+      exact ⟨pureRes_self (fun _ he => (cancel_frame he).1),
+        fun _ => pureRes_cfg (fun _ he => (cancel_frame he).2.2)⟩
+    | addSigner x inc =>
+      refine ⟨pureRes_self (fun _ he => (addSigner_frame he).1), fun hc => ?_⟩
+      rcases hc with hc | hc
+      · exact pureRes_cfg (fun _ he => absurd (addSigner_frame he).2.2 hc)
+      · simp [Call.isAdmin] at hc
+    | removeSigner x dec =>
+      refine ⟨pureRes_self (fun _ he => (removeSigner_frame he).1), fun hc => ?_⟩
+      rcases hc with hc | hc
+      · exact pureRes_cfg (fun _ he => absurd (removeSigner_frame he).2.2 hc)
+      · simp [Call.isAdmin] at hc
+    | swapSigner f t =>
+      refine ⟨pureRes_self (fun _ he => (swapSigner_frame he).1), fun hc => ?_⟩
+      rcases hc with hc | hc
+      · exact pureRes_cfg (fun _ he => absurd (swapSigner_frame he).2.2 hc)
+      · simp [Call.isAdmin] at hc
+    | changeThreshold n =>
+      refine ⟨pureRes_self (fun _ he => (changeThreshold_frame he).1), fun hc => ?_⟩
+      rcases hc with hc | hc
+      · exact pureRes_cfg (fun _ he => absurd (changeThreshold_frame he).2.2 hc)
+      · simp [Call.isAdmin] at hc
+    | lockBalance st d amt =>
+      refine ⟨pureRes_self (fun _ he => (lockBalance_frame he).1), fun hc => ?_⟩
+      rcases hc with hc | hc
+      · exact pureRes_cfg (fun _ he => absurd (lockBalance_frame he).2.2 hc)
+      · simp [Call.isAdmin] at hc
+
+theorem failSub_cfg : SubCfg failSub :=
+  fun s _ => ⟨ResSelf.err s _ _, fun _ => ResCfg.err s _ _⟩
+
+theorem exec_cfg (epoch : Int) : ∀ fuel, SubCfg (exec fuel epoch)
+  | 0 => execMsg_cfg failSub_cfg epoch
+  | n + 1 => execMsg_cfg (exec_cfg epoch n) epoch
+
+theorem ResSelf.stateOr {s : State} {r : Res} (h : ResSelf s r) : (r.stateOr s).self = s.self := by
+  unfold Res.stateOr
+  cases ho : r.out with
+  | error e => rfl
+  | ok p => obtain ⟨s', ret⟩ := p; exact h s' ret ho
+
+theorem ResCfg.stateOr {s : State} {r : Res} (h : ResCfg s r) :
+    Cfg (r.stateOr s) = Cfg s ∨ ∃ ev ∈ r.trace, SelfAdmin ev := by
+  unfold Res.stateOr
+  cases ho : r.out with
+  | error e => exact Or.inl rfl
+  | ok p => obtain ⟨s', ret⟩ := p; exact h s' ret ho
+
 end BA.Multisig
